@@ -59,7 +59,7 @@ func main() {
 			panic(err)
 		}
 		w := bufio.NewWriterSize(f, 1<<20)
-		x := &Exec{env: newEnv(), out: w, branches: map[string]int{}, fam: map[string]interface{}{}}
+		x := &Exec{env: newEnv(), out: w, branches: map[string]int{}, fam: map[string]interface{}{}, twin: os.Getenv("VERIF_TWIN") != ""}
 		x.ctx = x.env.scenarioCtx()
 		x.run(lines)
 		w.Flush()
